@@ -35,7 +35,21 @@ func describeRecipientArg(pr *prover, recv ssa.Value, v ssa.Value) string {
 			if sl, ok := val.(*ssa.Slice); ok {
 				if arr, ok := sl.X.(*ssa.Alloc); ok {
 					var names []string
-					if refs := arr.Referrers(); refs != nil {
+					// elements stored through the array (composite literal) or through the slice / the local holding it
+					// (make followed by element assignments)
+					bases := []ssa.Value{arr, sl}
+					if refs := x.Referrers(); refs != nil {
+						for _, r := range *refs {
+							if ld, ok := r.(*ssa.UnOp); ok && ld.Op == token.MUL {
+								bases = append(bases, ld)
+							}
+						}
+					}
+					for _, base := range bases {
+						refs := base.Referrers()
+						if refs == nil {
+							continue
+						}
 						for _, r := range *refs {
 							if ia, ok := r.(*ssa.IndexAddr); ok && ia.Referrers() != nil {
 								for _, rr := range *ia.Referrers() {
@@ -50,6 +64,44 @@ func describeRecipientArg(pr *prover, recv ssa.Value, v ssa.Value) string {
 							}
 						}
 					}
+					return "[" + strings.Join(names, ",") + "]"
+				}
+			}
+		}
+		// actor := make(ItemCollection, 1); actor[0] = r.Actor; &actor
+		if len(stores) == 1 {
+			if mk, ok := stores[0].Val.(*ssa.MakeSlice); ok {
+				var bases []ssa.Value
+				bases = append(bases, mk)
+				if refs := x.Referrers(); refs != nil {
+					for _, r := range *refs {
+						if ld, ok := r.(*ssa.UnOp); ok && ld.Op == token.MUL {
+							bases = append(bases, ld)
+						}
+					}
+				}
+				var names []string
+				for _, b := range bases {
+					if b.Referrers() == nil {
+						continue
+					}
+					for _, r := range *b.Referrers() {
+						ia, ok := r.(*ssa.IndexAddr)
+						if !ok || ia.Referrers() == nil {
+							continue
+						}
+						for _, rr := range *ia.Referrers() {
+							if st, ok := rr.(*ssa.Store); ok && st.Addr == ia {
+								if fp, ok := pr.fieldOf(st.Val); ok && len(fp.Idx) == 1 && fp.Root == pr.canonicalRoot(recv) {
+									names = append(names, fp.Names[0])
+								} else {
+									names = append(names, "?")
+								}
+							}
+						}
+					}
+				}
+				if k, ok := mk.Len.(*ssa.Const); ok && int(k.Int64()) == len(names) {
 					return "[" + strings.Join(names, ",") + "]"
 				}
 			}
@@ -268,13 +320,27 @@ func checkBlockRemovalTest(w *World, c *Check, root *ssa.Function) {
 		return
 	}
 	iriEq := w.Method("IRI", "Equals")
+	// the removal functions: what root calls directly or through its own helpers, not descending into the comparison
+	// primitives themselves (IRI.Equals, ItemsEqual, IsNil and everything reached through an interface)
 	var fns []*ssa.Function
-	for _, f := range w.Reach([]*ssa.Function{root}, func(g *ssa.Function) bool { return !w.InPkg(g) }) {
-		// the functions that walk a list of items: an ItemCollection among the parameters
-		for _, p := range f.Params {
-			if isItemCollectionType(w, p.Type()) {
-				fns = append(fns, f)
-				break
+	seenFn := map[*ssa.Function]bool{root: true}
+	work := []*ssa.Function{root}
+	for len(work) > 0 {
+		f := work[0]
+		work = work[1:]
+		fns = append(fns, f)
+		for _, g := range append([]*ssa.Function{f}, allAnon(f)...) {
+			for _, call := range callsIn(g) {
+				cal := call.Common().StaticCallee()
+				if cal == nil || seenFn[cal] || !w.InPkg(cal) || cal.Blocks == nil || cal == iriEq || cal.Signature.Recv() != nil {
+					continue
+				}
+				switch cal.Name() {
+				case "ItemsEqual", "IsNil", "IsNotNil":
+					continue
+				}
+				seenFn[cal] = true
+				work = append(work, cal)
 			}
 		}
 	}
@@ -900,6 +966,68 @@ func checkSplice(w *World, c *Check, pr *prover, rule string, f *ssa.Function) {
 				c.ok(rule, key, w.InstrPos(st), "order-preserving splice / re-slice")
 			} else {
 				c.bad(rule, key, w.InstrPos(st), fmt.Sprintf("%s assigns the caller's list something other than the order-preserving splice append(s[:i], s[i+1:]...) or a re-slice", name))
+			}
+		}
+	}
+	// an index is recorded for deletion at most once: when the record is made inside an inner loop (the scan over what
+	// has been seen so far) with a value that does not change in that loop, the loop must be left right after —
+	// otherwise an entry that matches two seen entries (IRI equivalence that ignores the scheme is not transitive on
+	// arbitrary strings) is recorded twice, the entry after it is deleted as well, and when it is the last entry the
+	// splice runs past the end of the list (panic in Recipients() on crafted addressing)
+	{
+		lh := loopHeaders(f)
+		for _, b := range f.Blocks {
+			for _, in := range b.Instrs {
+				call, ok := in.(*ssa.Call)
+				if !ok {
+					continue
+				}
+				bi, isB := call.Common().Value.(*ssa.Builtin)
+				if !isB || bi.Name() != "append" || len(call.Common().Args) != 2 {
+					continue
+				}
+				sl, isSl := types.Unalias(call.Type()).Underlying().(*types.Slice)
+				if !isSl {
+					continue
+				}
+				if bt, isBt := sl.Elem().Underlying().(*types.Basic); !isBt || bt.Info()&types.IsInteger == 0 {
+					continue
+				}
+				elems, okE := variadicElems(call.Common().Args[1])
+				if !okE || len(elems) != 1 {
+					continue
+				}
+				// innermost and next enclosing loop of the block
+				var inner, outer *ssa.BasicBlock
+				for h := range lh[b] {
+					if inner == nil || len(loopBody(lh, h)) < len(loopBody(lh, inner)) {
+						inner = h
+					}
+				}
+				for h := range lh[b] {
+					if h != inner && (outer == nil || len(loopBody(lh, h)) < len(loopBody(lh, outer))) {
+						outer = h
+					}
+				}
+				if inner == nil || outer == nil {
+					continue
+				}
+				// the recorded value does not change inside the inner loop
+				if vi, isInstr := elems[0].(ssa.Instruction); isInstr && lh[vi.Block()][inner] {
+					continue
+				}
+				key := fmt.Sprintf("%s:record-once", name)
+				again := false
+				for _, sc := range b.Succs {
+					if sc == inner || (lh[sc][inner] && reachesWithin(sc, inner, outer)) {
+						again = true
+					}
+				}
+				if again {
+					c.bad(rule, key, w.InstrPos(call), fmt.Sprintf("%s records the position of an entry for deletion inside the scan over the entries seen so far and keeps scanning: an entry equivalent to two of them is recorded twice, so the entry after it is deleted too — and if it is the last one the deletion runs past the end of the list (Recipients() panics)", name))
+				} else {
+					c.ok(rule, key, w.InstrPos(call), "the scan stops after recording the position")
+				}
 			}
 		}
 	}
